@@ -99,6 +99,9 @@ type UpstreamSpec struct {
 	UseCA bool   `json:"use_ca,omitempty"`
 	Skip  bool   `json:"skip_verify,omitempty"`
 	HTTP1 bool   `json:"http1,omitempty"` // server does not offer h2
+	// QuicMaxStreams: the DoQ server's limit of concurrently open streams per
+	// connection (0 = quic-go's default of 100).
+	QuicMaxStreams int `json:"quic_max_streams,omitempty"`
 }
 
 type DomainSetSpec struct {
